@@ -52,6 +52,13 @@ CHECKS['C19'] = dict(technique='runtime monitoring: repeated fresh process launc
                   'decompiles and extracts. N = 8 quick (miss <= 2^-7 per 2-way race), 40 thorough.',
              note='Probabilistic: a k-way hash-order race is missed with probability <= (1/k!)^(N-1)... at worst 2^-(N-1). Only the hash seed varies between runs (single-threaded tool).',
              design='3/C19')
+CHECKS['C08'] = dict(technique='runtime monitoring: print/parse round-trip oracle with a canonical AST serialiser, over generated, decompiled and directly built ASTs x widths',
+             text='Exploration. For each AST x (parsed generated files of every format, the same with literals folded, decompiler output of corpus binaries, and directly built expression ASTs with negative '
+                  'literals in every radix, all f32 classes, nested unary operators, switches with holes, hostile strings) and widths w in 1..200: parse(fmt(x,w)) must succeed, the canonical forms must be equal '
+                  '(floats by bits) and printing the re-parsed script must give the same text.',
+             note='canon ignores spans, ids and integer display hints and identifies INF/NAN/true/false with their literals; idempotence is judged modulo integer display hints (hex/bin/bool/unsigned spellings are '
+                  'formatter hints the parser does not keep).',
+             design='3/C08')
 WIP = {}  # property -> reason (not claimed)
 
 def main():
